@@ -19,6 +19,7 @@
 From AV Require Import Base.Bytes Base.Outcome Hash.HashModel Tree.Heap Tree.Ops Tree.Script Tree.Inv.
 From AV Require Import Tree.Index Tree.IndexProofsAssoc Tree.IndexProofs Tree.Refs Tree.IndexProofsSetName Tree.IndexProofsBridge Tree.IndexProofsTiny.
 From AV Require Import Spec.SpecReal Tree.CheckFn Tree.IndexProofsTablesReal Tree.IndexProofsClosed Tree.IndexProofsTinyMove.
+From AV Require Import Tree.RefsAll Tree.IndexProofsNodeInv Tree.IndexProofsAll Tree.IndexProofsTinyCross.
 Import Tiny.
 Open Scope list_scope.
 Open Scope N_scope.
@@ -110,6 +111,52 @@ Theorem C04_history_x_real :
   run_ops RT tab_el tab_en (check_fn_model dfas) LATEST root_attrs l empty_world = Val w' ->
   TreeFacts w' /\ Inv04 RT (check_fn_model dfas) w' /\ Inv05 RT w'.
 Proof. exact C04_C05_history_x_rt. Qed.
+
+(* ---------- all 26 constructors (no pending constructor).  Moves between two models (move_element_full) are covered; the
+   finding classes are Known04a / Known05a of Tree/RefsAll.v (Known04 without the side condition on the type of a model root,
+   Known05 plus the two-model form of the container-move collision).  RX (Tree/IndexProofsNodeInv.v: every reference element
+   holds string data, every model root has a type that is neither named nor a reference type) is kept by every operation
+   without any exception class and holds in the empty world. *)
+Theorem C04_nodes_inv :
+  forall (T : tables) (tab_el tab_en : nametab) (check_fn : N -> list N -> res bool) (LATEST : N)
+         (root_attrs : list (N * cdata)),
+  TablesOK T check_fn ->
+  (forall ty, et_new T (autosar_element T) = Val ty -> plainty T ty) ->
+  forall (w : world) (o : op) (r : out value) (w' : world),
+  RX T w -> run_op T tab_el tab_en check_fn LATEST root_attrs o w = Val (r, w') -> RX T w'.
+Proof. exact RX_step. Qed.
+
+Theorem C04_inv :
+  forall (T : tables) (tab_el tab_en : nametab) (check_fn : N -> list N -> res bool) (LATEST : N)
+         (root_attrs : list (N * cdata)),
+  TablesOK T check_fn ->
+  forall (w : world) (o : op) (r : out value) (w' : world),
+  TreeFacts w -> Inv04 T check_fn w -> Inv05 T w -> RX T w ->
+  Known04a T LATEST w o = false -> Known05a T tab_el tab_en check_fn LATEST root_attrs w o = false ->
+  run_op T tab_el tab_en check_fn LATEST root_attrs o w = Val (r, w') -> Inv04 T check_fn w'.
+Proof. exact C04_inv_all. Qed.
+
+Theorem C04_history_all :
+  forall (T : tables) (tab_el tab_en : nametab) (check_fn : N -> list N -> res bool) (LATEST : N)
+         (root_attrs : list (N * cdata)),
+  TablesOK T check_fn ->
+  (forall ty, et_new T (autosar_element T) = Val ty -> plainty T ty) ->
+  forall (l : list op) (w' : world),
+  clean45a T tab_el tab_en check_fn LATEST root_attrs l empty_world = true ->
+  run_ops T tab_el tab_en check_fn LATEST root_attrs l empty_world = Val w' ->
+  TreeFacts w' /\ Inv04 T check_fn w' /\ Inv05 T w'.
+Proof. exact C04_C05_history_all. Qed.
+
+Theorem C04_root_plain_real : forall ty, et_new RT (autosar_element RT) = Val ty -> plainty RT ty.
+Proof. exact real_root_plain. Qed.
+
+Theorem C04_history_all_real :
+  forall (dfas : N -> option (list (list N) * list N)) (tab_el tab_en : nametab) (LATEST : N) (root_attrs : list (N * cdata))
+         (l : list op) (w' : world),
+  clean45a RT tab_el tab_en (check_fn_model dfas) LATEST root_attrs l empty_world = true ->
+  run_ops RT tab_el tab_en (check_fn_model dfas) LATEST root_attrs l empty_world = Val w' ->
+  TreeFacts w' /\ Inv04 RT (check_fn_model dfas) w' /\ Inv05 RT w'.
+Proof. exact C04_C05_history_all_rt. Qed.
 
 Theorem C04_lookup :
   forall (T : tables) (check_fn : N -> list N -> res bool) (w : world) (m : N) (p : list N) (r : out (option id)) (w' : world),
@@ -226,3 +273,28 @@ Example C04_move_container_refuted :
   (exists w', Tiny.run mc_op (wof mc_pre) = Val (OK (VElem 4), w')) /\
   ~ Inv04 tiny tiny_check_fn (wof (mc_pre ++ [mc_op])).
 Proof. exact K04_move_container_refuted. Qed.
+
+(* ---------- moves between two models (tiny tables): an identifiable element with a reference to itself; a container *)
+Example C04_move_cross_demo :
+  (TreeFacts (wof cross_demo) /\ Inv04 tiny tiny_check_fn (wof cross_demo) /\ Inv05 tiny (wof cross_demo)) /\
+  idents_of (wof x_pre) 0 = [(BS "/A", 2); (BS "/A/S", 5); (BS "/A/T", 8)] /\
+  idents_of (wof cross_demo) 0 = [(BS "/A", 2); (BS "/A/T", 8)] /\ origins_list (wof cross_demo) 0 = [(BS "/A/T", [10])] /\
+  idents_of (wof cross_demo) 1 = [(BS "/B", 13); (BS "/B/S", 5)] /\ origins_list (wof cross_demo) 1 = [(BS "/B/S", [7])].
+Proof. exact cross_demo_summary. Qed.
+
+Example C04_move_cross_container_demo :
+  (TreeFacts (wof cross_container_demo) /\ Inv04 tiny tiny_check_fn (wof cross_container_demo) /\ Inv05 tiny (wof cross_container_demo)) /\
+  idents_of (wof cross_container_demo) 0 = [(BS "/A", 2)] /\ origins_list (wof cross_container_demo) 0 = [] /\
+  idents_of (wof cross_container_demo) 1 = [(BS "/B", 13); (BS "/B/S", 5); (BS "/B/T", 8)] /\
+  origins_list (wof cross_container_demo) 1 = [(BS "/B/S", [7; 10])].
+Proof. exact cross_container_demo_summary. Qed.
+
+(* ---------- finding (two-model form of C04-move-container-duplicates-paths): a container moved to another model whose index
+   already has the path of an element it holds *)
+Example C04_move_cross_container_refuted :
+  (TreeFacts (wof x3_pre) /\ Inv04 tiny tiny_check_fn (wof x3_pre) /\ Inv05 tiny (wof x3_pre)) /\
+  Known05 tiny tiny_el tiny_en tiny_check_fn LATEST [] (wof x3_pre) x2_op = false /\
+  Known05a tiny tiny_el tiny_en tiny_check_fn LATEST [] (wof x3_pre) x2_op = true /\
+  (exists w', Tiny.run x2_op (wof x3_pre) = Val (OK (VElem 4), w')) /\
+  ~ Inv04 tiny tiny_check_fn (wof (x3_pre ++ [x2_op])).
+Proof. exact K05_move_cross_container_refuted. Qed.
